@@ -102,18 +102,24 @@ type Sim struct {
 	Stats  map[string]int
 	Probes map[string]int
 
-	traceEnd      int
-	afterSettle   []func()
-	cliBudget     int
-	svcBudget     int
-	httpBudget    int
-	faultBudget   int
-	skipped       int
-	gwStopped     bool
-	seamSeen      int
-	lastUse       map[string]time.Duration
-	refetchFailed map[*Variant]bool
-	sawDerived    map[*Variant]bool
+	traceEnd       int
+	Triggers       []*Trigger
+	tokenResets    []*tokenResetRec
+	deferredReq    *CReq
+	pendingAcc     []pendingAccess
+	connGone       map[int]int
+	tokenResetSubj map[string]bool
+	afterSettle    []func()
+	cliBudget      int
+	svcBudget      int
+	httpBudget     int
+	faultBudget    int
+	skipped        int
+	gwStopped      bool
+	seamSeen       int
+	lastUse        map[string]time.Duration
+	refetchFailed  map[*Variant]bool
+	sawDerived     map[*Variant]bool
 
 	stopped     bool
 	stallTarget string
@@ -124,16 +130,18 @@ type Sim struct {
 
 func newSim(cfg *RunCfg) *Sim {
 	s := &Sim{
-		Cfg:           cfg,
-		rng:           rand.New(rand.NewPCG(cfg.Seed, 0x9E3779B97F4A7C15)),
-		mrng:          rand.New(rand.NewPCG(cfg.Seed^0xD1B54A32D192ED03, 0xA0761D6478BD642F)),
-		seen:          map[any]int{},
-		cidIdx:        map[string]int{},
-		Stats:         map[string]int{},
-		Probes:        map[string]int{},
-		srcCnt:        map[string]int{},
-		refetchFailed: map[*Variant]bool{},
-		sawDerived:    map[*Variant]bool{},
+		Cfg:            cfg,
+		rng:            rand.New(rand.NewPCG(cfg.Seed, 0x9E3779B97F4A7C15)),
+		mrng:           rand.New(rand.NewPCG(cfg.Seed^0xD1B54A32D192ED03, 0xA0761D6478BD642F)),
+		seen:           map[any]int{},
+		cidIdx:         map[string]int{},
+		Stats:          map[string]int{},
+		Probes:         map[string]int{},
+		srcCnt:         map[string]int{},
+		refetchFailed:  map[*Variant]bool{},
+		tokenResetSubj: map[string]bool{},
+		connGone:       map[int]int{},
+		sawDerived:     map[*Variant]bool{},
 	}
 	s.obsHash = 1469598103934665603
 	return s
@@ -305,6 +313,12 @@ func (s *Sim) obsLocked(source, line string) {
 	if s.keepLines {
 		s.obsLines = append(s.obsLines, fmt.Sprintf("%04d %-10s %s", s.Step, source, line))
 	}
+}
+
+func (s *Sim) seqNow() uint64 {
+	s.mu.Lock()
+	defer s.mu.Unlock()
+	return s.seq
 }
 
 func (s *Sim) nextSeq() uint64 {
